@@ -406,10 +406,15 @@ impl Forest {
             };
             self.link_ordinary(p, idx, n);
         }
-        // n meets the neighbours of the replaced node on both sides
+        // n meets the neighbours of the replaced node; only junctions the call
+        // created count (text nodes that were adjacent before, possible after
+        // consolidation had been off, are left alone)
+        let was_prev_of_o = prev_o == Some(n);
+        let prev_junction_new = !same_place || !was_prev_of_o;
+        let next_junction_new = !same_place || was_prev_of_o;
         if self.consolidate && self.is_text(n) {
             let mut cur = n;
-            if let Some(pv) = self.prev(cur) {
+            if let Some(pv) = self.prev(cur).filter(|_| prev_junction_new) {
                 if self.is_text(pv) {
                     let t = self.text_of(cur);
                     self.text_mut(pv).push_str(&t);
@@ -419,7 +424,7 @@ impl Forest {
                     cur = pv;
                 }
             }
-            if let Some(nx) = self.next(cur) {
+            if let Some(nx) = self.next(cur).filter(|_| next_junction_new) {
                 if self.is_text(nx) {
                     if cur == n {
                         // existing node keeps its identity, the added one goes
